@@ -203,6 +203,23 @@ def run_tlc(tla, cfg, wd, workers=None, timeout=900, simulate=None, depth=None, 
     return res
 
 
+def run_apalache(tla, wd, init, inv, length, timeout=900):
+    """One Apalache obligation (bounded symbolic check of `inv` from `init` up to `length` steps).  Returns wall seconds;
+    raises Infra on time-out, tool failure or a counterexample (a model-level matter, never a verdict on the code)."""
+    out_dir = os.path.join(wd, "apalache-out")
+    cmd = ["apalache-mc", "check", "--init=" + init, "--inv=" + inv, "--length=%d" % length, "--out-dir=" + out_dir, tla]
+    t0 = time.time()
+    try:
+        p = subprocess.run(cmd, cwd=wd, stdout=subprocess.PIPE, stderr=subprocess.STDOUT, text=True, timeout=timeout)
+    except subprocess.TimeoutExpired:
+        raise Infra("Apalache timed out on %s (%s => %s, length %d)" % (tla, init, inv, length))
+    finally:
+        shutil.rmtree(out_dir, ignore_errors=True)
+    if "EXITCODE: OK" not in p.stdout:
+        raise Infra("Apalache did not discharge %s => %s (length %d) of %s:\n%s" % (init, inv, length, tla, p.stdout[-1500:]))
+    return time.time() - t0
+
+
 def stage_specs(wd, names):
     """Copy spec files (and every .tla, for EXTENDS) into the working directory."""
     for f in os.listdir(SPEC):
